@@ -77,6 +77,34 @@ class Builder:
         ev.set()
         return res
 
+    def syntax_only(self, text, tc):
+        """Compile one translation unit against the multi-header tree with -fsyntax-only."""
+        key = "syntax|" + hashlib.sha256((text + "|" + toolchain_id(tc)).encode()).hexdigest()
+        with self.lock:
+            if key in self.cache:
+                self.n_cache_hits += 1
+                return self.cache[key]
+            self.counter += 1
+            n = self.counter
+        d = os.path.join(self.scratch, "s%06d" % n)
+        os.makedirs(d)
+        try:
+            p = os.path.join(d, "alone.cc")
+            with open(p, "w") as f:
+                f.write(text)
+            inc = os.path.join(_tree.REPO, _tree.CODE_REL)
+            try:
+                r = subprocess.run([COMPILERS[tc[0]], "-std=" + tc[1], "-fsyntax-only", "-I", inc, p], cwd=d, stdout=subprocess.PIPE, stderr=subprocess.STDOUT, timeout=COMPILE_TIMEOUT_S)
+                res = {"ok": r.returncode == 0, "diag": _head(r.stdout, d) if r.returncode else ""}
+            except (OSError, subprocess.TimeoutExpired) as e:
+                res = {"ok": False, "diag": repr(e), "harness_error": True}
+        finally:
+            shutil.rmtree(d, ignore_errors=True)
+        with self.lock:
+            self.cache[key] = res
+            self.n_builds += 1
+        return res
+
     def _do_build(self, n, variant, header, sources, tc):
         d = os.path.join(self.scratch, "b%06d" % n)
         src = os.path.join(d, "src")
@@ -142,6 +170,15 @@ def judge_twin(builder, tree, plan, header, extra_toolchain=True):
         if s["stdout"] != m["stdout"] or s["rc"] != m["rc"]:
             detail["diff"] = _first_diff(s["stdout"], m["stdout"])
             return "RESULT_MISMATCH", detail
+        from . import apisurface as _api
+
+        have = set(s["stdout"].splitlines())
+        missing = [l for l in _api.required_lines(pcfg, sel.get("io", True)) if l not in have]
+        if missing:
+            got = [l for l in s["stdout"].splitlines() if l.split(" ")[:2] == missing[0].split(" ")[:2]]
+            detail["expected_line"] = missing[0]
+            detail["got_line"] = got[0] if got else None
+            return "FWD_MISMATCH", detail
     elif m["ok"] and not s["ok"]:
         return "NOT_SELF_CONTAINED", detail
     elif s["ok"] and not m["ok"]:
@@ -230,3 +267,23 @@ def code_lines(data):
             continue
         out.append(line.rstrip())
     return b"\n".join(out)
+
+
+def judge_header_alone(builder, header, tc):
+    """Clause (c) sample: a public header, included as the very first thing of a translation unit
+    (and once more, for its guard), under one compiler x standard configuration.  A failure only
+    counts if the same header compiles when au/au.hh precedes it - then what is missing is an
+    include of its own, not, say, a dependency on a test framework."""
+    alone = builder.syntax_only('#include "%s"\n#include "%s"\nint main() { return 0; }\n' % (header, header), tc)
+    detail = {"header": header, "toolchain": toolchain_id(tc), "alone": alone}
+    if alone.get("harness_error"):
+        return "HARNESS", detail
+    if alone["ok"]:
+        return None, detail
+    after = builder.syntax_only('#include "au/au.hh"\n#include "%s"\nint main() { return 0; }\n' % header, tc)
+    detail["after_au_hh"] = after
+    if after.get("harness_error"):
+        return "HARNESS", detail
+    if after["ok"]:
+        return "HEADER_NOT_STANDALONE", detail
+    return "BOTH_REJECT", detail
